@@ -19,7 +19,7 @@ from __future__ import annotations
 import copy
 import json
 
-from vf.harness.c29_cwlgen import JS, WF_REQS, dangling_steps, source_lists, walk_workflows
+from vf.harness.c29_cwlgen import JS, WF_REQS, dangling_steps, source_lists, unconnected, walk_workflows
 from vf.harness.c29_shrink import _drop_unused_inputs
 
 ANY = ["null", "Any"]
@@ -42,13 +42,31 @@ def _via(w, src, tool=ID_TOOL, prefix="vfid"):
     return f"{name}/o"
 
 
+def prune_unconnected(c):
+    """remove, in place, every step / nested-workflow output that cannot influence the top-level outputs"""
+    items = unconnected(c["wf"])
+    for path, what, name in items:
+        w = c["wf"]
+        parent_step = None
+        for p in [x for x in path.split("/") if x]:
+            parent_step = w["steps"][p]
+            w = parent_step["run"]
+        if what == "step":
+            w["steps"].pop(name, None)
+        else:
+            w["outputs"].pop(name, None)
+            if parent_step is not None and name in parent_step["out"]:
+                parent_step["out"] = [o for o in parent_step["out"] if o != name]
+    return bool(items)
+
+
 def rw_unconnected(case):
     c = copy.deepcopy(case)
     changed = False
-    for _, w in list(walk_workflows(c["wf"])):
-        for n in dangling_steps(w):
-            del w["steps"][n]
-            changed = True
+    for _ in range(4):  # removing an output of a nested workflow can disconnect more
+        if not prune_unconnected(c):
+            break
+        changed = True
     return (_drop_unused_inputs(c) if changed else c), changed
 
 
